@@ -349,6 +349,7 @@ namespace Pistache::Async
                 }
                 catch (const InternalRethrow& e)
                 {
+                    PISTACHE_VERIF_GUARD(guard, chain_->mtx, "p.chain.lock");
                     PISTACHE_VERIF_YIELD("p.chain.store");
                     PISTACHE_VERIF_ACCESS(chain_.get(), "state", 1);
                     chain_->exc   = e.exc;
@@ -438,6 +439,7 @@ namespace Pistache::Async
                 void doReject(const std::shared_ptr<CoreT<T>>& core) override
                 {
                     reject_(core->exc);
+                    PISTACHE_VERIF_GUARD(guard, this->chain_->mtx, "p.chain.lock");
                     PISTACHE_VERIF_YIELD("p.chain.walk");
                     PISTACHE_VERIF_ACCESS(this->chain_.get(), "requests", 0);
                     for (const auto& req : this->chain_->requests)
@@ -450,6 +452,7 @@ namespace Pistache::Async
                 void finishResolve(Ret&& ret) const
                 {
                     typedef typename std::decay<Ret>::type CleanRet;
+                    PISTACHE_VERIF_GUARD(guard, this->chain_->mtx, "p.chain.lock");
                     PISTACHE_VERIF_YIELD("p.chain.store");
                     PISTACHE_VERIF_ACCESS(this->chain_.get(), "state", 1);
                     this->chain_->template construct<CleanRet>(std::forward<Ret>(ret));
@@ -489,6 +492,7 @@ namespace Pistache::Async
                 void doReject(const std::shared_ptr<CoreT<void>>& core) override
                 {
                     reject_(core->exc);
+                    PISTACHE_VERIF_GUARD(guard, this->chain_->mtx, "p.chain.lock");
                     PISTACHE_VERIF_YIELD("p.chain.walk");
                     PISTACHE_VERIF_ACCESS(this->chain_.get(), "requests", 0);
                     for (const auto& req : this->chain_->requests)
@@ -501,6 +505,7 @@ namespace Pistache::Async
                 void finishResolve(Ret&& ret) const
                 {
                     typedef typename std::remove_reference<Ret>::type CleanRet;
+                    PISTACHE_VERIF_GUARD(guard, this->chain_->mtx, "p.chain.lock");
                     PISTACHE_VERIF_YIELD("p.chain.store");
                     PISTACHE_VERIF_ACCESS(this->chain_.get(), "state", 1);
                     this->chain_->template construct<CleanRet>(std::forward<Ret>(ret));
@@ -626,6 +631,7 @@ namespace Pistache::Async
 
                     void operator()(const PromiseType& val)
                     {
+                        PISTACHE_VERIF_GUARD(guard, chainCore->mtx, "p.chain.lock");
                         chainCore->construct<PromiseType>(val);
                         for (const auto& req : chainCore->requests)
                         {
@@ -651,6 +657,7 @@ namespace Pistache::Async
                     promise.then(std::move(chainer), [weakPtr](std::exception_ptr exc) {
                         if (auto core = weakPtr.lock())
                         {
+                            PISTACHE_VERIF_GUARD(guard, core->mtx, "p.chain.lock");
                             core->exc   = std::move(exc);
                             core->state = State::Rejected;
 
@@ -706,6 +713,7 @@ namespace Pistache::Async
 
                     void operator()(const PromiseType& val)
                     {
+                        PISTACHE_VERIF_GUARD(guard, chainCore->mtx, "p.chain.lock");
                         chainCore->construct<PromiseType>(val);
                         for (const auto& req : chainCore->requests)
                         {
@@ -749,7 +757,8 @@ namespace Pistache::Async
                 {
                     auto chainer = makeChainer(promise);
                     promise.then(std::move(chainer), [=](std::exception_ptr exc) {
-                        auto core   = this->chain_;
+                        auto core = this->chain_;
+                        PISTACHE_VERIF_GUARD(guard, core->mtx, "p.chain.lock");
                         core->exc   = std::move(exc);
                         core->state = State::Rejected;
 
